@@ -89,6 +89,7 @@ func (p *FloatingIPPlugin) getSubnet(pod *corev1.Pod) (sets.String, error) {
 		return nil, fmt.Errorf("failed to query by key %s: %v", keyObj.KeyInDB, err)
 	}
 	allocatedSubnets := sets.NewString()
+	holdsIP := false
 	if len(ipranges) == 0 {
 		if len(ipInfos) > 0 {
 			glog.V(3).Infof("%s already have an allocated ip %s in subnets %v", keyObj.KeyInDB,
@@ -103,6 +104,7 @@ func (p *FloatingIPPlugin) getSubnet(pod *corev1.Pod) (sets.String, error) {
 				unallocatedIPRange = append(unallocatedIPRange, ipranges[i])
 			} else {
 				ips = append(ips, ipInfos[i].IP.String())
+				holdsIP = true
 				// an empty set after the first allocated ip means an empty intersection, don't start over
 				if len(ips) == 1 {
 					allocatedSubnets.Insert(ipInfos[i].NodeSubnets.UnsortedList()...)
@@ -141,7 +143,8 @@ func (p *FloatingIPPlugin) getSubnet(pod *corev1.Pod) (sets.String, error) {
 	if err != nil {
 		return nil, err
 	}
-	if allocatedSubnets.Len() > 0 {
+	if holdsIP {
+		// allocatedSubnets may be empty if the ips held by the pod have no node subnet in common
 		subnetSet = subnetSet.Intersection(allocatedSubnets)
 	}
 	if (reserve || isPoolSizeDefined) && subnetSet.Len() > 0 {
